@@ -32,7 +32,8 @@ MIN_NONTRIVIAL = {'quick': 1500, 'thorough': 40000}
 REQUIRED_MONITORS = ['boundary:PLSSDesc', 'roundtrip:pretty_desc',
                      'hook:deduce_layout', 'hook:populate_markers',
                      'hook:_stage_new_tract',
-                     'numlead', 'boundary:PLSSDesc:colon-mode-neutral']
+                     'numlead', 'boundary:PLSSDesc:colon-mode-neutral',
+                     'variant:line-ends', 'variant:all-of']
 EXHAUSTIVE_SUBSPACES = {
     'thorough': ["4 layouts x 6 Twp/Rge spellings x 6 section words x 5 "
                  "separators on a fixed 2x2 skeleton"],
@@ -91,6 +92,45 @@ def check_case(case, ctx, rec, pytrs):
             ctx.violation('flawed', case, "desc_is_flawed on a well-formed "
                           "description")
             return
+        if '\n' in text and len(text) % 2:
+            # the same description with other line ends: a bare carriage
+            # return (old Mac) reads exactly like a line feed; CR+LF up to
+            # blank space
+            ctx.hit('variant:line-ends')
+            for nl in ('\r', '\r\n'):
+                dv = pytrs.PLSSDesc(text.replace('\n', nl))
+                gotv = [[t.trs, t.desc] for t in dv.tracts]
+                same = (gotv == exp if nl == '\r' else
+                        [[a, _ws(b)] for a, b in gotv]
+                        == [[a, _ws(b)] for a, b in exp])
+                if not same or dv.e_flags:
+                    ctx.violation(
+                        'tracts-differ', case,
+                        f"with line ends {nl!r}: expected {exp} got {gotv} "
+                        f"(e_flags {dv.e_flags})", dedup=f"nl|{nl!r}|{layout}")
+                    return
+        if layout in ('desc_STR', 'TR_desc_S') and len(text) % 3 == 1 \
+                and case.get('spans'):
+            # 'of' in front of a section written ', all of' / ', all in'
+            # (the documented context phrase): same tracts
+            tv = text
+            n_all = 0
+            for a, b, k in sorted(case['spans'], reverse=True):
+                if k == 'sec' and tv[max(0, a - 4):a] == ' of ' \
+                        and not tv[:a - 4].rstrip().upper().endswith('ALL'):
+                    tv = tv[:a - 4] + (', all of ', ', all in ')[a % 2] + tv[a:]
+                    n_all += 1
+            if n_all:
+                ctx.hit('variant:all-of')
+                dv = pytrs.PLSSDesc(tv)
+                gotv = [[t.trs, t.desc] for t in dv.tracts]
+                if gotv != exp or dv.e_flags:
+                    ctx.violation(
+                        'tracts-differ', case,
+                        f"with ', all of' / ', all in' in front of the "
+                        f"sections ({tv!r}): expected {exp} got {gotv} "
+                        f"(e_flags {dv.e_flags})", dedup=f"allof|{layout}")
+                    return
         if len(text) % 4 == 0:
             # a description in one layout reads the same chunk by chunk
             ctx.hit('boundary:PLSSDesc:segment')
